@@ -29,7 +29,10 @@ RULE = ("Random: records of 60..3000 bases, linear or circular, with 2-9 genes b
         "every set of 2-4 one-cell protoclusters (form_spanning_enum); bounds in coverage.enumeration_plan / "
         "*_enumeration_cells. One random case in five comes from the forced family 'hybrid pairs in a row + bridging "
         "protoclusters (+ a hybrid pair covering two of them)', one in five from 'origin-spanning protocluster + small "
-        "disjoint protoclusters before/after the origin + some elsewhere'. Non-trivial: >= 3 protoclusters with at least two different relations among "
+        "disjoint protoclusters before/after the origin + some elsewhere', one in six from 'chain of 4-7 protoclusters "
+        "linked by shared genes / core overlap / extent overlap with the extent starts in any order relative to the "
+        "cores' (form_chain_enum: every order of the extent starts for chains of 4-6, thorough 7). Genes next to a "
+        "core (inside the neighbourhood only) are given the protocluster's own product one time in six. Non-trivial: >= 3 protoclusters with at least two different relations among "
         "share-a-defining-gene / cores overlap / extents overlap, or a relation through an origin-spanning core or "
         "extent, or two related protoclusters with identical coordinates, or a same-coordinates promotion; distinct = "
         "sha1 of the spec (enumerated cases are distinct by construction).")
@@ -37,8 +40,9 @@ ASSUMPTIONS = [
     "overlap/containment of locations are the set-of-bases definitions of vlib/ring.py (C04 judges the location code)",
     "'the span covering' a group is the hull on a line; on a ring it is what connect_locations returns (judged by "
     "C04), re-checked here for every candidate: covers its members, one arc, the minimal arc when shorter than L/2",
-    "definition genes are the genes inside the core with a CORE function for the product (C08 judges membership); a "
-    "case where the record disagrees is counted as excluded, never seen so far",
+    "definition genes are the genes contained in the core (C04 containment) with a CORE function for the product; "
+    "Protocluster.definition_cdses is compared with that for every protocluster (clause P0_definition_genes, the "
+    "same assertion C08 makes) because 'sharing a defining gene' rests on it",
     "same-coordinates promotion (a weaker group with the coordinates of an existing candidate is folded into it and "
     "its extra members get singles) is documented in build_candidates and pinned by test_protocluster_promotion / "
     "test_overlap_interleave; it is part of the reference. Whether a promoted member that belongs to an interleaved "
